@@ -17,7 +17,9 @@
          ctx_self_userset_accepted | ctx_size_limit_not_applied (contextual tuples only)
 
    Kind 2:  2 env model cdefs limit maxw before deletes writes on_duplicate on_missing class after
-     the Write command on a store: result class and store afterwards must be those of write_cmd. *)
+     the Write command on a store: result class and store afterwards must be those of write_cmd (DIFF);
+     a refused request must leave the store unchanged and an accepted one must not contain a tuple
+     that is neither allowed nor one of the listed laxities, at whatever position (PROP). *)
 
 let dec_table v = List.map (fun p -> match as_list p with
   | [n; i] -> (as_cbytes n, n_of_int (as_int i)) | _ -> failwith "table entry") (as_list v)
@@ -171,8 +173,16 @@ let f id vs =
     let ((r, _calls), s') = write_cmd e m cds limit maxw (dec_opt od) (dec_opt om) before deletes writes in
     let cl = as_int cl in
     let what = Printf.sprintf "writes=[%s] deletes=%d" (String.concat "; " (List.map show writes)) (List.length deletes) in
+    let hyps = env_wf e && restr_wf m && tupleset_direct m && cds_wf cds in
+    let not_allowed = List.filter (fun w ->
+      rt_wf w && not (allowed_raw e m cds limit w || lax_cond_raw e m cds limit w || lax_nocond_raw e m cds limit w)) writes in
     if cl <> 0 && store_s before <> store_s after then
       "PROP a rejected write request changed the store: " ^ what
+    else if cl = 0 && hyps && not_allowed <> [] then
+      Printf.sprintf "PROP invalid tuple accepted: the Write request succeeded although %s is not allowed by the model (position %d of %d): %s"
+        (show (List.hd not_allowed))
+        (let rec idx i = function [] -> -1 | x :: r -> if x == List.hd not_allowed then i else idx (i + 1) r in idx 0 writes)
+        (List.length writes) what
     else if cl <> wres_class r then
       Printf.sprintf "DIFF Write request class=%d model=%d: %s" cl (wres_class r) what
     else if store_s after <> store_s s' then
